@@ -128,14 +128,14 @@ def gen_penalise_field_boundary_pyst_kernel_2d(
             # first along X
             # these parts involve broadcasting hence couldn't be pystencilized
             field[:, :width] = field[:, (width - 1) : width]
-            field[:, -width:] = field[:, -width : (-width + 1)]
+            field[:, -width:] = field[:, -width : field.shape[1] - width + 1]
             penalise_field_x_front_boundary_kernel_2d(field=field, x_grid_field=x_grid_field)
             penalise_field_x_back_boundary_kernel_2d(field=field, x_grid_field=x_grid_field)
 
             # then along Y
             # these parts involve broadcasting hence couldn't be pystencilized
             field[:width, :] = field[(width - 1) : width, :]
-            field[-width:, :] = field[-width : (-width + 1), :]
+            field[-width:, :] = field[-width : field.shape[0] - width + 1, :]
             penalise_field_y_front_boundary_kernel_2d(field=field, y_grid_field=y_grid_field)
             penalise_field_y_back_boundary_kernel_2d(field=field, y_grid_field=y_grid_field)
 
